@@ -118,6 +118,20 @@ def generate(g, tier):
         nl = g.r.choice(['\r\n', '\r\n', '\r', '\n'])
         text = c['src']['text'].replace('\n', nl) + g.r.choice(['', nl, nl + nl])
         cases.append(dict(op='compile_file', opts=c['opts'], file='proj/payload.txt', files={'proj/payload.txt': text}, meta=dict(c['meta'], family='script-file')))
+    # a valid script is still just itself when OTHER things were compiled before it in the same process: scripts that warn
+    # (unknown commands, DEFAULT_DELAY given twice), scripts that fail, scripts using `$` forms of the same commands, other options,
+    # a reused or a new Compiler object
+    NOISE = ['HOLD a\nRELEASE b', 'DEFAULT_DELAY\n    5\n    6', 'GUI xx', '$DELAY 1/0', '$CTRL "c"\n$ALT "F"+4\n$STRING 1+1',
+             'VAR d 5\n$DELAY d*100\n$DEFAULT_DELAY d', 'IF TRUE\n    NOPE x\nREPEAT 2\n    FOO', 'REM note\nALTCHAR 65\nFUNC f\n    CTRL z\nRUN f']
+    for _ in range(count(tier, 80, 800)):
+        lines = [gen_line(g) for _ in range(g.r.randint(1, 10))]
+        c = script_case(g, lines, g.chance(0.4))
+        steps = []
+        for _ in range(g.r.randint(1, 3)):
+            steps.append(dict(op='compile', src=dict(text=g.r.choice(NOISE)), opts=dict(include_comments=g.chance(0.5), flipper_commands=g.chance(0.7)),
+                              compiler=g.r.choice([None, 'k', 'k2'])))
+        steps.append(dict(op='compile', src=c['src'], opts=c['opts'], compiler=g.r.choice([None, 'k', 'k3']), reassign=True))
+        cases.append(dict(op='history', steps=steps, meta=dict(c['meta'], family='script-after-others', nocorr=True)))
     # long scripts: every line passes through, however many there are
     n = 30000 if tier == 'quick' else 120000
     big = [gen_line(g) for _ in range(50)]
@@ -150,6 +164,10 @@ def oracle(cases, results):
     for i, (c, r) in enumerate(zip(cases, results)):
         exp = c.get('meta', {}).get('exp')
         if exp is None or r.get('kind') == 'hang': continue
+        if c.get('op') == 'history':
+            if r.get('kind') != 'history' or not r.get('results'):
+                fs.append(fail(i, f'history did not run: {str(r)[:200]}', 'script:history-broken')); continue
+            r = r['results'][-1]
         if r.get('kind') != 'ok':
             fs.append(fail(i, f'valid script rejected: {r.get("kind")} {r.get("cls", r.get("exc"))} {r.get("msg", "")}', f'script:rejected:{r.get("cls", r.get("exc"))}')); continue
         if len(r['out']) != len(exp) or not all(line_ok(tuple(e), o) for e, o in zip(exp, r['out'])):
